@@ -308,8 +308,27 @@ def _run(case, work):
             res = task.exception() if task.exception() is not None else task.result()
         return res, [repo._slots.qsize()], [repo], hang
 
+    # the event loop itself can be frozen by the code under test (a blocking call on the loop thread): run it in a thread
+    # and watch it from outside
+    import threading
+    box = {}
+
+    def runner():
+        try:
+            box['failure'] = asyncio.run(main())
+        except BaseException as e:          # pragma: no cover - reported below
+            box['error'] = e
     with world.capture():
-        failure = asyncio.run(main())
+        th = threading.Thread(target=runner, name='c09-loop', daemon=True)
+        th.start()
+        th.join(150)
+    if th.is_alive():
+        failure = fail('hang', f'{case["op"]} with N={n}: the event loop stopped responding (no progress for 150 s; the harness\'s own '
+                       f'controller runs on that loop and was frozen with it)', phase='event-loop')
+    elif 'error' in box:
+        raise box['error']
+    else:
+        failure = box['failure']
     nontrivial = nontrivial_flags['nonfifo'] or nontrivial_flags['delays']
     if nontrivial_flags['nonfifo']:
         classes.append('non-fifo-completion')
